@@ -213,9 +213,15 @@ CLAIMED['C08'] = {
             'converts back (model of xmlx12_simple.get_segment) to the segment with its not-used elements blanked. Premises are '
             'machine-checked where possible: the text-based loop-prefix test of the code is proved safe for every ordered pair of '
             'loop paths of every shipped map by evaluation over the maps regenerated on each run; two premises are shown necessary by '
-            'proved counterexamples. Not proved: that an XML parser reads the serialised events back as that tree (ElementTree is '
-            'trusted); the run checks, on the implementation, well-formedness, nesting = matched map path, labels and the full round '
-            'trip over generated documents, and compares model and implementation on whole documents and on XML trees.',
+            'proved counterexamples. Reading back: xml_read, a total reader for exactly the XML subset the writer emits, inverts the '
+            'serialiser on every balanced, one-rooted, XML-representable event sequence (C08_xml_read_inverts_serialiser), and for a '
+            'whole document the text written reads back as the tree of the events, whose <seg> nodes are the per-segment trees, and '
+            'conversion hands exactly those segments to the X12 writer (C08_document_read_back; what XML cannot carry — TAB/LF in '
+            'ids, CR in data, control characters — is stated by proved examples agreeing with expat). Not proved: that expat / '
+            'ElementTree agree with xml_read (trusted; compared on every run); per-segment conversion for ISA and composite ids of '
+            'the shipped maps. The run checks, on the implementation, well-formedness, nesting = matched map path, labels, every '
+            'value read back, and the full round trip over generated documents, and compares model and implementation on whole '
+            'documents and on XML trees.',
     'design_ref': 'DESIGN.md §6 C08, §11',
     'note': 'Trusted: Coq kernel; hand transcription of XmlOut/XmlIn/Writer; Spec/C08_spec.v; tools/gen (maps.py, c08.py); expat; extraction.',
     'technique': 'Coq refinement proof (writer monad vs abstract XML events) + per-map vm_compute facts + extracted-model correspondence + round-trip oracle',
